@@ -88,7 +88,7 @@ def rename_def(src, func, new, out):
 
 def resub(src, out, pattern, repl):
     txt = open(src).read()
-    repl = repl.replace('\\x20', ' ')      # prep arguments are whitespace-separated: \x20 stands for a space
+    repl = repl.replace('\\x20', ' ').replace('\\x2a', '*')      # prep arguments are whitespace-separated: \x20 stands for a space
     txt2, n = re.subn(pattern, lambda m: repl, txt, flags=re.S | re.M)
     if n == 0: raise RuntimeError('pattern %r not found in %s' % (pattern, src))
     open(out, 'w').write(txt2)
